@@ -8,7 +8,7 @@
    and the disk class (and the shard count) and nothing else, and __setstate__ feeds exactly these back
    into __init__.  Visibility across threads, processes and fork is runtime behaviour of SQLite and of the
    pid check in Cache._con: exercised by harness/props/c18.py, not proved. *)
-From DC Require Import DCPrelude Val DiskBase FormatBase Gen_Disk Gen_Format Format_5_6_3 Open FormatFacts.
+From DC Require Import DCPrelude Val DiskBase FormatBase Gen_Disk Disk Gen_Format Format_5_6_3 Open FormatFacts.
 
 Theorem C18_format_frozen :
   (Gen_Format.DBNAME = Format_5_6_3.DBNAME /\
@@ -34,13 +34,33 @@ Theorem C18_format_frozen :
   (Gen_Disk.MODE_NONE = Format_5_6_3.MODE_NONE /\ Gen_Disk.MODE_RAW = Format_5_6_3.MODE_RAW /\
    Gen_Disk.MODE_BINARY = Format_5_6_3.MODE_BINARY /\ Gen_Disk.MODE_TEXT = Format_5_6_3.MODE_TEXT /\
    Gen_Disk.MODE_PICKLE = Format_5_6_3.MODE_PICKLE /\ Gen_Disk.hash_mask = Format_5_6_3.hash_mask) /\
-  (forall key, Gen_Disk.put_plan_of key = Format_5_6_3.put_plan_of key) /\
+  (* the second recorded difference (repair of C02-F2 / C03-F1): released = a float NaN KEY is bound natively, which SQLite
+     stores as NULL (C18_released_put_nan_null); current = it is pickled like every non-native key.  Every other key gets the
+     released decision (C18_put_compatible: the same database key), so every entry written by released code is found as
+     before; rows that released code stored under NaN (key NULL) were unreachable by key then and stay so, and are removed
+     by clear / expire / evict / cull like any row *)
+  ((forall key, is_nan key = false -> Gen_Disk.put_plan_of key = Format_5_6_3.put_plan_of key) /\
+   Format_5_6_3.put_plan_of (VFloat FNaN) = PutNative true /\ Gen_Disk.put_plan_of (VFloat FNaN) = PutPickle false) /\
   (forall m pkv value read, Gen_Disk.store_plan_of m pkv value read = Format_5_6_3.store_plan_of m pkv value read) /\
   (forall mode n r, Gen_Disk.fetch_plan_of mode n r = Format_5_6_3.fetch_plan_of mode n r) /\
   (forall e, Gen_Disk.write_newline e = Format_5_6_3.write_newline e) /\
   (forall k, Gen_Disk.hash_plan_of k = Format_5_6_3.hash_plan_of k).
 Proof. exact format_frozen. Qed.
 Print Assumptions C18_format_frozen.
+
+(* The former finding C02-F2 as a statement about the RELEASED Disk.put (the frozen decision tree under the interpretation of
+   model/Disk.v): float('nan') becomes the database key NULL with raw = 1 -- which addresses no row
+   (C03_null_key_matches_nothing) -- while the current put gives the BLOB key pkk NaN with raw = 0. *)
+Theorem C18_released_put_nan_null : forall c,
+  put_with Format_5_6_3.put_plan_of c (VFloat FNaN) = PutOk SNull true /\
+  put c (VFloat FNaN) = PutOk (SBlob (pkk c (VFloat FNaN))) false.
+Proof. exact released_and_current_put_nan. Qed.
+Print Assumptions C18_released_put_nan_null.
+
+(* The repair changes nothing else: every other key is given the database key (and raw flag) the released code gave it. *)
+Theorem C18_put_compatible : forall c key, is_nan key = false -> put c key = put_with Format_5_6_3.put_plan_of c key.
+Proof. exact put_compatible. Qed.
+Print Assumptions C18_put_compatible.
 
 (* for all dictionaries of defaults, stored settings and arguments, over any type of values; `meta` is what
    INSERT OR IGNORE puts into the Settings table for the METADATA keys *)
